@@ -24,11 +24,11 @@ def pick_filter(rng, pkts):
     val = {"link": p.f["link_id"], "fee": p.f["fee_id"], "stave": p.f["fee_id"] & 0x703F}[kind]
     if rng.random() < 0.12:   # a value that is not present
         if kind == "link":
-            val = next(v for v in range(256) if all(q.f["link_id"] != v for q in pkts))
+            val = next((v for v in range(256) if all(q.f["link_id"] != v for q in pkts)), val)      # (all 256 link ids may be present)
         elif kind == "fee":
-            val = next(v for v in range(65536) if all(q.f["fee_id"] != v for q in pkts))
+            val = next((v for v in range(65536) if all(q.f["fee_id"] != v for q in pkts)), val)
         else:
-            val = next(v for v in (R.fee_id(l, s) for l in range(8) for s in range(64)) if all((q.f["fee_id"] & 0x703F) != v for q in pkts))
+            val = next((v for v in (R.fee_id(l, s) for l in range(8) for s in range(64)) if all((q.f["fee_id"] & 0x703F) != v for q in pkts)), val)
     return (kind, val)
 
 
